@@ -398,7 +398,7 @@ def r_space_writers(ctx):
     the manager's own free_space."""
     repo = ctx.repo
     n = 0
-    for attr in ("free_space", "capacity"):
+    for attr in _space_fields(repo) + ["capacity"]:
         for fi, node, kind, det in scan().attr_sites(attr, ("cascade.shm", "cascade.executor"), owner=f"{DS}.Manager"):
             if kind not in ("store", "aug"):
                 continue
@@ -423,7 +423,15 @@ def r_space_writers(ctx):
                 r = e.data["args"][0]
                 if isinstance(r, Obj) and r.cls.endswith("FreeSpaceResponse"):
                     found = True
-                    if vkey(r.fields.get("free_space")) != "self.manager.free_space":
+                    want_keys = {"self.manager.free_space"}
+                    from ..interp import _prop_defs
+                    g_, _s = _prop_defs(repo, f"{DS}.Manager", "free_space")
+                    if g_ is not None:
+                        from ..terms import Attr as _Attr
+                        for q_ in Interp(repo).explore(g_, args={"self": _Attr(Sym("self"), "manager")}):
+                            if q_.exit[0] == "return":
+                                want_keys.add(vkey(q_.exit[1]))
+                    if vkey(r.fields.get("free_space")) not in want_keys:
                         ctx.violation("C08.R4", srv.qual, loc(srv, e.node), "reported free space",
                                       f"the server reports {vkey(r.fields.get('free_space'))} instead of the manager's free_space")
                     else:
@@ -432,12 +440,38 @@ def r_space_writers(ctx):
         ctx.undecided("C08.R4", loc(srv), "FreeSpaceRequest branch not found")
 
 
+def _free_space_of(repo, p):
+    """The store's free space at the end of path `p`: the stored field, or — if the tree computes it — what the property getter returns on that state."""
+    if "self.free_space" in p.heap:
+        return p.heap["self.free_space"]
+    from ..interp import _prop_defs
+    g_, _s = _prop_defs(repo, f"{DS}.Manager", "free_space")
+    if g_ is None:
+        return None
+    qs = [q for q in Interp(repo).explore(g_, env={k: v for k, v in p.heap.items() if k.startswith("self.")}) if q.exit[0] == "return"]
+    return qs[0].exit[1] if len(qs) == 1 else None
+
+
+def _space_fields(repo):
+    """The stored field(s) that carry the store's space accounting: `free_space` itself, or — if it is a property with a setter in this tree — the
+    fields its setter writes (e.g. a `_used_space` counter)."""
+    import ast as _ast
+    from ..interp import _prop_defs
+    g_, s_ = _prop_defs(repo, f"{DS}.Manager", "free_space")
+    if g_ is None or s_ is None:
+        return ["free_space"]
+    out = [t.attr for n in _ast.walk(s_.node) if isinstance(n, (_ast.Assign, _ast.AugAssign)) for t in (n.targets if isinstance(n, _ast.Assign) else [n.target])
+           if isinstance(t, _ast.Attribute) and isinstance(t.value, _ast.Name) and t.value.id == "self"]
+    return sorted(set(out)) or ["free_space"]
+
+
 def r_residency_pairing(ctx):
     """C08.R3 (sites): every += / -= on free_space sits in a function whose residency pairing is decided by a model rule."""
     covered = {f"{DS}.Manager.add", f"{DS}.Manager.page_in", f"{DS}.Manager.page_out.callback", f"{DS}.Manager.purge",
                f"{DS}.Manager.page_out", f"{DS}.Manager.page_in.callback", f"{DS}.Manager.get"}
     n = 0
-    for fi, node, kind, det in scan().attr_sites("free_space", ("cascade.shm",), owner=f"{DS}.Manager"):
+    sites = [x for f_ in _space_fields(ctx.repo) for x in scan().attr_sites(f_, ("cascade.shm",), owner=f"{DS}.Manager")]
+    for fi, node, kind, det in sites:
         if kind != "aug":
             continue
         n += 1
@@ -1314,7 +1348,7 @@ def r_manager_init(ctx):
         ctx.evals(len(paths))
         row = {"configured": cfg, "available": 8}
         for p in paths:
-            cap, free = p.heap.get("self.capacity"), p.heap.get("self.free_space")
+            cap, free = p.heap.get("self.capacity"), _free_space_of(repo, p)
             if p.exit[0] != "return" or cap != want or free != want:
                 ctx.violation("C08.R6", fi.qual, loc(fi), "initial capacity and free space",
                               f"{row}: the store starts with capacity={vkey(cap)} free_space={vkey(free)} ({p.exit[0]}); expected both = {want} — free space above the "
